@@ -350,3 +350,23 @@ func VerifH_C07_file_btreev1() {
 	}
 	vrt.Covered("btree-read")
 }
+
+// a chunk index node that announces the largest entry count (0xFFFF) and is fully present in the file (1.5 MiB image):
+// the key table has one more key than entries
+func VerifH_C07_file_btreev1_full_node_thorough() {
+	vrt.LoopBound(200000)
+	vrt.AllocBudget(1 << 30)
+	const entries = 0xFFFF
+	b := make([]byte, 24+entries*24+16)
+	copy(b, "TREE")
+	b[4], b[5] = 1, vrt.U8()&1 // chunk index node, level 0 or 1
+	b[6], b[7] = 0xFF, 0xFF
+	k := vrt.Bytes(8)
+	copy(b[24+8:], k) // first key's coordinate
+	f := &verifFile{data: b}
+	n, err := ParseBTreeV1Node(f, 0, 8, 1, []uint64{1})
+	if err == nil {
+		vrt.Assert(n != nil && len(n.Keys) == entries+1 && len(n.Children) == entries, "btree-node-tables")
+	}
+	vrt.Covered("btree-full-node-parsed")
+}
